@@ -17,7 +17,7 @@ class Unsupported(AnalysisError):
 _BIN = {ast.Add: operator.add, ast.Sub: operator.sub, ast.Mult: operator.mul, ast.FloorDiv: operator.floordiv,
         ast.Mod: operator.mod, ast.BitOr: operator.or_, ast.BitAnd: operator.and_}
 _CMP = {ast.Eq: operator.eq, ast.NotEq: operator.ne, ast.Lt: operator.lt, ast.LtE: operator.le, ast.Gt: operator.gt,
-        ast.GtE: operator.ge, ast.In: lambda a, b: a in b, ast.NotIn: lambda a, b: a not in b,
+        ast.GtE: operator.ge, ast.In: lambda a, b: _member(a, b), ast.NotIn: lambda a, b: not _member(a, b),
         ast.Is: operator.is_, ast.IsNot: operator.is_not}
 _STR_METHODS = {"startswith", "endswith", "split", "rsplit", "partition", "rpartition", "upper", "lower", "strip", "lstrip",
                 "rstrip", "isdigit", "isalpha", "isupper", "find", "index", "count", "replace", "removeprefix", "removesuffix",
@@ -27,6 +27,22 @@ _BUILTINS = {"len": len, "int": int, "str": str, "float": float, "abs": abs, "mi
              "bool": bool, "list": list, "tuple": tuple, "set": set, "sorted": sorted, "any": any, "all": all, "sum": sum,
              "enumerate": enumerate, "zip": zip, "reversed": reversed, "ord": ord, "chr": chr, "repr": repr, "dict": dict,
              "frozenset": frozenset, "round": round}
+
+
+def _member(a, b):
+    for x in (b, a):
+        if isinstance(x, _Unknown):
+            _raise_unknown(x)
+    if isinstance(b, dict):
+        return a in b
+    if isinstance(b, str):
+        return a in b
+    for x in b:
+        if isinstance(x, _Unknown):
+            _raise_unknown(x)
+        if x == a:
+            return True
+    return False
 
 
 def ceval(e: ast.AST, env: dict, stubs: dict | None = None):
@@ -109,19 +125,51 @@ def ceval(e: ast.AST, env: dict, stubs: dict | None = None):
                 out += format(v, spec)
         return out
     if isinstance(e, ast.Call):
-        if e.keywords and not all(k.arg in ("maxsplit", "sep", "start", "key", "reverse") for k in e.keywords):
+        is_pe_call = isinstance(e.func, ast.Name) and "__pe__" in stubs and e.func.id in stubs["__pe__"][0].calls
+        if e.keywords and not is_pe_call and not all(k.arg in ("maxsplit", "sep", "start", "key", "reverse") for k in e.keywords):
             raise Unsupported(f"partial evaluation: keyword arguments in `{norm(e)}`")
-        kw = {k.arg: ceval(k.value, env, stubs) for k in e.keywords}
+        kw = {k.arg: ceval(k.value, env, stubs) for k in e.keywords} if not is_pe_call else {}
         if isinstance(e.func, ast.Name) and e.func.id in _BUILTINS and e.func.id not in env:
-            return _BUILTINS[e.func.id](*[ceval(a, env, stubs) for a in e.args], **kw)
+            argv = [ceval(a, env, stubs) for a in e.args]
+            unk = [a for a in argv if isinstance(a, _Unknown)]
+            if unk:
+                g_ = next((a for a in unk if isinstance(a, _GapUnknown)), unk[0])
+                if e.func.id in ("bool", "any", "all"):
+                    _raise_unknown(g_)
+                return g_
+            return _BUILTINS[e.func.id](*argv, **kw)
+        if isinstance(e.func, ast.Name) and "__pe__" in stubs and e.func.id in stubs["__pe__"][0].calls and e.func.id not in env:
+            pe, st_ = stubs["__pe__"]
+            argv = []
+            for a in e.args:
+                try:
+                    argv.append(ceval(a, env, stubs))
+                except UnknownValue as ex:
+                    argv.append(GAP if getattr(ex, "gap", False) else UNKNOWN)
+            if e.keywords:
+                ps_ = [a.arg for a in pe.calls[e.func.id][0].args.args]
+                for k in e.keywords:
+                    if k.arg in ps_ and ps_.index(k.arg) == len(argv):
+                        argv.append(ceval(k.value, env, stubs))
+                    else:
+                        raise Unsupported(f"partial evaluation: keyword arguments in `{norm(e)}`")
+            return pe.call(e.func.id, argv, st_)
+        if isinstance(e.func, ast.Name) and e.func.id in stubs.get("__calls__", {}) and not e.keywords:
+            return call_function(e.func.id, [_arg(a, env, stubs) for a in e.args], stubs, env)
         if isinstance(e.func, ast.Attribute):
             recv = ceval(e.func.value, env, stubs)
             m = e.func.attr
+            if isinstance(recv, _Unknown):
+                for a in e.args:
+                    _arg(a, env, stubs)
+                return recv
             if isinstance(recv, str) and m in _STR_METHODS:
                 return getattr(recv, m)(*[ceval(a, env, stubs) for a in e.args], **kw)
             if isinstance(recv, (list, tuple)) and m in _LIST_METHODS:
                 return getattr(recv, m)(*[ceval(a, env, stubs) for a in e.args])
             if isinstance(recv, dict) and m in ("get", "keys", "values", "items"):
+                return getattr(recv, m)(*[ceval(a, env, stubs) for a in e.args])
+            if "__pe__" in stubs and isinstance(recv, (dict, list, set)) and m in ("setdefault", "pop", "copy", "union", "intersection", "difference", "issubset"):
                 return getattr(recv, m)(*[ceval(a, env, stubs) for a in e.args])
         raise Unsupported(f"partial evaluation: call `{norm(e)}`")
     if isinstance(e, (ast.ListComp, ast.GeneratorExp, ast.SetComp)):
@@ -140,6 +188,45 @@ def ceval(e: ast.AST, env: dict, stubs: dict | None = None):
         rec(0, dict(env))
         return set(out) if isinstance(e, ast.SetComp) else out
     raise Unsupported(f"partial evaluation: {type(e).__name__} `{norm(e)[:60]}`")
+
+
+def _arg(a, env, stubs):
+    try:
+        return ceval(a, env, stubs)
+    except UnknownValue:
+        return UNKNOWN
+    except Unsupported:
+        return UNKNOWN
+
+
+def call_function(name: str, args: list, stubs: dict, caller_env: dict | None = None):
+    """run the body of a repository function registered in stubs['__calls__'] on the given (possibly unknown) arguments and
+    hand back what it returns (UNKNOWN if that is not determined); a raise in the callee propagates as _Leave('raise')"""
+    fnode, base = stubs["__calls__"][name]
+    depth = stubs.get("__depth__", 0)
+    if depth > 6:
+        raise Unsupported("partial evaluation: call depth")
+    env2 = dict(base)
+    ps = [a.arg for a in fnode.args.args]
+    for p_, v_ in zip(ps, args):
+        env2[p_] = v_
+    for p_ in ps[len(args):]:
+        env2[p_] = UNKNOWN
+    if caller_env is not None and "__trace__" in caller_env:
+        env2["__trace__"] = caller_env["__trace__"]
+    is_gen = any(isinstance(x, (ast.Yield, ast.YieldFrom)) for x in ast.walk(fnode))
+    if is_gen:
+        env2["__yields__"] = []
+    stubs["__depth__"] = depth + 1
+    try:
+        _run(fnode.body, env2, stubs)
+    except _Leave as l:
+        if l.how == "return":
+            return env2["__yields__"] if is_gen else l.value
+        raise
+    finally:
+        stubs["__depth__"] = depth
+    return env2["__yields__"] if is_gen else None
 
 
 def _bind(t, v, env):
@@ -178,6 +265,8 @@ class UnknownValue(Exception):
 
 
 class _Unknown:
+    """a value the sample does not determine: it flows through look-ups and arithmetic, and refuses to be tested"""
+
     def __bool__(self):
         raise UnknownValue()
 
@@ -187,16 +276,40 @@ class _Unknown:
     def __eq__(self, o):
         raise UnknownValue()
 
+    def __ne__(self, o):
+        raise UnknownValue()
+
     def __hash__(self):
         return 0
+
+    def __getitem__(self, k):
+        return self
+
+    def __iter__(self):
+        raise UnknownValue()
+
+    def __contains__(self, x):
+        raise UnknownValue()
+
+    def __len__(self):
+        raise UnknownValue()
+
+    def _same(self, *a):
+        return self
+    __add__ = __radd__ = __sub__ = __rsub__ = __mul__ = __rmul__ = __floordiv__ = __mod__ = __or__ = __ror__ = __and__ = __neg__ = _same
+
+    def _cmp(self, o):
+        raise UnknownValue()
+    __lt__ = __le__ = __gt__ = __ge__ = _cmp
 
 
 UNKNOWN = _Unknown()
 
 
-class _Leave(Exception):
-    def __init__(self, how="leave"):
+class _Leave(BaseException):
+    def __init__(self, how="leave", value=None):
         self.how = how
+        self.value = value
 
 
 def run_outcome(stmts, env: dict, stubs: dict | None = None) -> str:
@@ -226,14 +339,45 @@ def run_body(stmts, env: dict, stubs: dict | None = None) -> dict:
     return env
 
 
+def _gap(stubs, what):
+    stubs.setdefault("__gaps__", []).append(what)
+
+
+def _stored_names(node):
+    return {n.id for n in ast.walk(node) if isinstance(n, ast.Name) and isinstance(n.ctx, ast.Store)}
+
+
+def _value(e, env, stubs, what):
+    """value of e; UNKNOWN when the sample does not determine it; UNKNOWN plus a recorded gap when this evaluator cannot
+    read the expression"""
+    try:
+        return ceval(e, env, stubs)
+    except UnknownValue:
+        return UNKNOWN
+    except Unsupported as ex:
+        _gap(stubs, f"{what}: {ex}")
+        return UNKNOWN
+    except Exception as ex:          # the program itself would fail here on this sample (or on an unknown)
+        _gap(stubs, f"{what}: {type(ex).__name__}")
+        return UNKNOWN
+
+
 def _run(stmts, env, stubs):
+    stubs = stubs if stubs is not None else {}
+    strict = bool(stubs.get("__unknowns__"))
     for st in stmts:
+        if "__trace__" in env:
+            env["__trace__"].add(id(st))
         if isinstance(st, ast.If):
             try:
                 take = bool(ceval(st.test, env, stubs))
-            except (Unsupported, UnknownValue):
+            except Exception as ex:
+                if not isinstance(ex, UnknownValue):
+                    _gap(stubs, f"test `{norm(st.test)[:60]}`: {ex}")
                 # the sample does not decide this test: follow both branches; what they disagree on is unknown afterwards
                 e1, e2 = dict(env), dict(env)
+                if "__trace__" in env:
+                    e1["__trace__"], e2["__trace__"] = set(env["__trace__"]), set(env["__trace__"])
                 l1 = l2 = None
                 try:
                     _run(st.body, e1, stubs)
@@ -243,6 +387,24 @@ def _run(stmts, env, stubs):
                     _run(st.orelse, e2, stubs)
                 except _Leave as l:
                     l2 = l
+                if "__trace__" in env:
+                    # executed for sure: what both branches executed (a branch that leaves does not constrain the rest)
+                    t1, t2 = e1.pop("__trace__"), e2.pop("__trace__")
+                    if l1 is not None and l2 is None:
+                        env["__trace__"] |= t2
+                    elif l2 is not None and l1 is None:
+                        env["__trace__"] |= t1
+                    else:
+                        env["__trace__"] |= (t1 & t2)
+                if l1 is not None and l2 is not None:
+                    raise l1
+                if strict and (l1 is not None or l2 is not None):
+                    # one branch leaves: what follows is reached through the other one only
+                    keep = e2 if l1 is not None else e1
+                    for k in [k for k in env if k != "__trace__"]:
+                        env.pop(k)
+                    env.update(keep)
+                    continue
                 for k in set(e1) | set(e2):
                     a, b = e1.get(k, UNKNOWN), e2.get(k, UNKNOWN)
                     try:
@@ -250,36 +412,71 @@ def _run(stmts, env, stubs):
                     except Exception:
                         same = False
                     env[k] = a if same else UNKNOWN
-                if l1 is not None and l2 is not None:
-                    raise l1
                 continue
             _run(st.body if take else st.orelse, env, stubs)
         elif isinstance(st, ast.Assign):
-            try:
-                v = ceval(st.value, env, stubs)
-            except Exception:
-                for t in st.targets:
-                    _unbind(t, env)
-                continue
+            if strict:
+                v = _value(st.value, env, stubs, f"`{norm(st)[:60]}`")
+            else:
+                try:
+                    v = ceval(st.value, env, stubs)
+                except Exception:
+                    for t in st.targets:
+                        _unbind(t, env)
+                    continue
             for t in st.targets:
                 if isinstance(t, (ast.Name, ast.Tuple, ast.List)):
                     try:
                         _bind(t, v, env)
                     except Exception:
-                        _unbind(t, env)
+                        if strict:
+                            for nm in _stored_names(t):
+                                env[nm] = UNKNOWN
+                        else:
+                            _unbind(t, env)
+                elif isinstance(t, ast.Subscript) and isinstance(t.value, ast.Name) and isinstance(env.get(t.value.id), (dict, list)):
+                    try:
+                        k_ = ceval(t.slice, env, stubs)
+                        box = type(env[t.value.id])(env[t.value.id])
+                        box[k_] = v
+                        env[t.value.id] = box
+                    except Exception:
+                        env[t.value.id] = UNKNOWN
         elif isinstance(st, ast.AnnAssign):
             if st.value is not None and isinstance(st.target, ast.Name):
-                try:
-                    env[st.target.id] = ceval(st.value, env, stubs)
-                except Exception:
-                    env.pop(st.target.id, None)
+                if strict:
+                    env[st.target.id] = _value(st.value, env, stubs, f"`{norm(st)[:60]}`")
+                else:
+                    try:
+                        env[st.target.id] = ceval(st.value, env, stubs)
+                    except Exception:
+                        env.pop(st.target.id, None)
         elif isinstance(st, ast.AugAssign):
             if isinstance(st.target, ast.Name):
                 try:
                     op = _BIN[type(st.op)]
                     env[st.target.id] = op(env[st.target.id], ceval(st.value, env, stubs))
                 except Exception:
-                    env.pop(st.target.id, None)
+                    if strict:
+                        env[st.target.id] = UNKNOWN
+                    else:
+                        env.pop(st.target.id, None)
+        elif isinstance(st, ast.Expr) and isinstance(st.value, (ast.Yield, ast.YieldFrom)):
+            if "__yields__" not in env:
+                _gap(stubs, "yield outside a followed generator")
+                continue
+            if isinstance(st.value, ast.Yield):
+                env["__yields__"].append(_value(st.value.value, env, stubs, "yield") if st.value.value is not None else None)
+            else:
+                v = _value(st.value.value, env, stubs, "yield from")
+                try:
+                    env["__yields__"].extend(list(v))
+                except Exception:
+                    env["__yields__"].append(UNKNOWN)
+                    _gap(stubs, "yield from an unknown sequence")
+        elif isinstance(st, ast.Expr) and isinstance(st.value, ast.Call) and isinstance(st.value.func, ast.Name) \
+                and st.value.func.id in stubs.get("__calls__", {}) and not st.value.keywords:
+            call_function(st.value.func.id, [_arg(a, env, stubs) for a in st.value.args], stubs, env)
         elif isinstance(st, ast.Expr):
             c = st.value
             if isinstance(c, ast.Call) and isinstance(c.func, ast.Attribute) and isinstance(c.func.value, ast.Name) and c.func.value.id in env \
@@ -292,12 +489,26 @@ def _run(stmts, env, stubs):
                         getattr(box, c.func.attr)(v)
                         env[c.func.value.id] = box
                 except Exception:
-                    env.pop(c.func.value.id, None)
+                    if strict:
+                        env[c.func.value.id] = UNKNOWN
+                    else:
+                        env.pop(c.func.value.id, None)
+            elif strict and isinstance(c, ast.Call):
+                # a call for its effect: arguments that are calls of followed functions are still run (they may raise)
+                for a in c.args:
+                    if isinstance(a, ast.Call) and isinstance(a.func, ast.Name) and a.func.id in stubs.get("__calls__", {}):
+                        _arg(a, env, stubs)
         elif isinstance(st, ast.For):
             try:
                 items = list(ceval(st.iter, env, stubs))
-            except Exception:
-                _unbind(st, env)
+            except Exception as ex:
+                if strict:
+                    if not isinstance(ex, UnknownValue):
+                        _gap(stubs, f"loop over `{norm(st.iter)[:50]}`: {ex}")
+                    for nm in _stored_names(st):
+                        env[nm] = UNKNOWN
+                else:
+                    _unbind(st, env)
                 continue
             if len(items) > 64:
                 _unbind(st, env)
@@ -320,9 +531,445 @@ def _run(stmts, env, stubs):
                     raise
             if not broke and st.orelse:
                 _run(st.orelse, env, stubs)
-        elif isinstance(st, (ast.Continue, ast.Break, ast.Return, ast.Raise)):
+        elif isinstance(st, ast.Return):
+            v = None
+            if st.value is not None:
+                v = _value(st.value, env, stubs, "return") if strict else UNKNOWN
+                if not strict:
+                    try:
+                        v = ceval(st.value, env, stubs)
+                    except Exception:
+                        v = UNKNOWN
+            raise _Leave("return", v)
+        elif isinstance(st, (ast.Continue, ast.Break, ast.Raise)):
             raise _Leave(type(st).__name__.lower())
-        elif isinstance(st, ast.Pass):
+        elif isinstance(st, (ast.Pass, ast.Assert, ast.Import, ast.ImportFrom, ast.Global, ast.Nonlocal)):
+            pass
+        elif isinstance(st, ast.Expr) and isinstance(st.value, ast.Constant):
             pass
         else:
-            _unbind(st, env)
+            if strict:
+                _gap(stubs, f"{type(st).__name__} statement")
+                for nm in _stored_names(st):
+                    env[nm] = UNKNOWN
+            else:
+                _unbind(st, env)
+
+
+# --------------------------------------------------------------------------- path-splitting evaluation on samples
+
+
+class _GapUnknown(_Unknown):
+    """unknown because this evaluator could not read something (not because the sample leaves it open)"""
+
+    def __repr__(self):
+        return "<unread>"
+
+
+def _raise_unknown(self, *a):
+    ex = UnknownValue()
+    ex.gap = isinstance(self, _GapUnknown)
+    raise ex
+
+
+for _n in ("__bool__", "__eq__", "__ne__", "__iter__", "__contains__", "__len__", "__lt__", "__le__", "__gt__", "__ge__"):
+    setattr(_Unknown, _n, _raise_unknown)
+_Unknown.__hash__ = lambda self: 0
+_Unknown.__deepcopy__ = lambda self, memo: self
+_Unknown.__copy__ = lambda self: self
+
+
+def _absorb(self, other=None):
+    return other if isinstance(other, _GapUnknown) else self
+
+
+for _n in ("__add__", "__radd__", "__sub__", "__rsub__", "__mul__", "__rmul__", "__floordiv__", "__mod__", "__or__", "__ror__", "__and__"):
+    setattr(_Unknown, _n, _absorb)
+_Unknown.__neg__ = lambda self: self
+GAP = _GapUnknown()
+
+
+class PState:
+    def __init__(self, env, trace=None, yields=None):
+        self.env = env
+        self.trace = set() if trace is None else trace
+        self.yields = yields
+
+    def fork(self):
+        import copy
+        memo = {}
+        env2 = copy.deepcopy(self.env, memo)
+        return PState(env2, set(self.trace), copy.deepcopy(self.yields, memo) if self.yields is not None else None)
+
+
+class PathEval:
+    """Follows statements on sample values, path by path: a test the sample does not decide splits the path, nothing is
+    merged.  Containers are shared by reference (a helper that fills its argument fills the caller's object).  Calls of
+    registered repository functions are followed; what cannot be read is recorded in `gaps` and yields an unread value."""
+
+    MUTATORS = {"append", "add", "update", "extend", "setdefault", "pop", "clear", "insert", "remove", "discard", "popleft", "appendleft", "sort", "reverse"}
+
+    def __init__(self, calls: dict, limit: int = 256):
+        self.calls = calls
+        self.limit = limit
+        self.gaps: list[str] = []
+        self.depth = 0
+
+    def gap(self, what: str):
+        self.gaps.append(what)
+
+    # ---- expressions
+    def ev(self, e, s: PState, what: str = ""):
+        if e is None:
+            return None
+        try:
+            return ceval(e, s.env, {"__pe__": (self, s)})
+        except UnknownValue as ex:
+            return GAP if getattr(ex, "gap", False) else UNKNOWN
+        except Unsupported as ex:
+            self.gap(f"{what or norm(e)[:50]}: {ex}")
+            return GAP
+        except _Leave:
+            raise
+        except RecursionError:
+            raise
+        except Exception as ex:
+            self.gap(f"{what or norm(e)[:50]}: {type(ex).__name__} {ex}")
+            return GAP
+
+    def test(self, e, s: PState):
+        """True / False / None (not decided by the sample)"""
+        try:
+            return bool(ceval(e, s.env, {"__pe__": (self, s)}))
+        except UnknownValue as ex:
+            if getattr(ex, "gap", False):
+                self.gap(f"test `{norm(e)[:50]}` depends on something that was not read")
+            return None
+        except Unsupported as ex:
+            self.gap(f"test `{norm(e)[:50]}`: {ex}")
+            return None
+        except _Leave:
+            raise
+        except Exception as ex:
+            self.gap(f"test `{norm(e)[:50]}`: {type(ex).__name__} {ex}")
+            return None
+
+    def call(self, name: str, args: list, s: PState):
+        fnode, base = self.calls[name]
+        if self.depth > 8:
+            raise Unsupported("call depth")
+        env2 = dict(base)
+        ps = [a.arg for a in fnode.args.args]
+        for p_, v_ in zip(ps, args):
+            env2[p_] = v_
+        for i_, p_ in enumerate(ps[len(args):]):
+            dflt = fnode.args.defaults
+            j = len(ps) - len(dflt)
+            k = len(args) + i_
+            env2[p_] = self.ev(dflt[k - j], PState(dict(base))) if k >= j else UNKNOWN
+        is_gen = any(isinstance(x, (ast.Yield, ast.YieldFrom)) for x in ast.walk(fnode))
+        sub = PState(env2, set(s.trace), [] if is_gen else None)
+        self.depth += 1
+        try:
+            falls, lefts = self.block(fnode.body, [sub])
+        finally:
+            self.depth -= 1
+        outs = [(st_, None) for st_ in falls] + [(st_, v_) for st_, how, v_ in lefts if how == "return"]
+        if not outs:
+            raise _Leave("raise")
+        tr = None
+        for st_, _v in outs:
+            tr = set(st_.trace) if tr is None else tr & st_.trace
+        s.trace |= tr
+        if len(outs) == 1:
+            st_, v_ = outs[0]
+            # the surviving path may have worked on copies (made where it split from paths that raised): write back
+            for p_, a_ in zip(ps, args):
+                fin = st_.env.get(p_)
+                if fin is not a_ and isinstance(a_, (dict, list, set)) and type(fin) is type(a_):
+                    if isinstance(a_, list):
+                        a_[:] = fin
+                    else:
+                        a_.clear()
+                        a_.update(fin)
+            return (st_.yields if is_gen else v_)
+        # several ways through the callee: containers it was handed may differ between them
+        self._diverged = getattr(self, "_diverged", set()) | {id(a_) for a_ in args if isinstance(a_, (dict, list, set))}
+        vals = [(st_.yields if is_gen else v_) for st_, v_ in outs]
+        try:
+            same = all(type(v) is type(vals[0]) and v == vals[0] for v in vals[1:])
+        except Exception:
+            same = False
+        return vals[0] if same else UNKNOWN
+
+    def _poison(self, s: PState):
+        d = getattr(self, "_diverged", None)
+        if d:
+            for k, v in list(s.env.items()):
+                if id(v) in d:
+                    s.env[k] = UNKNOWN
+            self._diverged = set()
+
+    # ---- statements
+    def block(self, stmts, states):
+        lefts = []
+        for node in stmts:
+            nxt = []
+            for s in states:
+                s.trace.add(id(node))
+                f, l = self.stmt(node, s)
+                nxt += f
+                lefts += l
+            states = nxt
+            if len(states) + len(lefts) > self.limit:
+                raise Unsupported("too many paths on the sample")
+            if not states:
+                break
+        return states, lefts
+
+    def _store(self, target, v, s: PState):
+        if isinstance(target, ast.Name):
+            s.env[target.id] = v
+        elif isinstance(target, (ast.Tuple, ast.List)):
+            try:
+                vals = list(v)
+                if len(vals) != len(target.elts):
+                    raise ValueError
+            except Exception:
+                vals = [GAP if isinstance(v, _GapUnknown) else UNKNOWN] * len(target.elts)
+            for t_, x_ in zip(target.elts, vals):
+                self._store(t_, x_, s)
+        elif isinstance(target, ast.Subscript):
+            obj = self.ev(target.value, s)
+            k = self.ev(target.slice, s) if not isinstance(target.slice, ast.Slice) else GAP
+            if isinstance(obj, (dict, list)) and not isinstance(k, _Unknown):
+                try:
+                    obj[k] = v
+                except Exception as ex:
+                    self.gap(f"store `{norm(target)[:40]}`: {type(ex).__name__}")
+            elif isinstance(obj, (dict, list)):
+                # stored under a key the sample does not determine: the container is no longer known
+                for nm, val in list(s.env.items()):
+                    if val is obj:
+                        s.env[nm] = GAP if isinstance(k, _GapUnknown) else UNKNOWN
+        elif isinstance(target, ast.Attribute):
+            self.gap(f"store to attribute `{norm(target)[:40]}`")
+        elif isinstance(target, ast.Starred):
+            self._store(target.value, v, s)
+
+    def stmt(self, node, s: PState):
+        """-> (states that go on, [(state, how, value)] that leave)"""
+        if isinstance(node, ast.If):
+            t = self.test(node.test, s)
+            self._poison(s)
+            if t is None:
+                s2 = s.fork()
+                f1, l1 = self.block(node.body, [s])
+                f2, l2 = self.block(node.orelse, [s2])
+                return f1 + f2, l1 + l2
+            return self.block(node.body if t else node.orelse, [s])
+        if isinstance(node, ast.Assign):
+            v = self.ev(node.value, s, f"`{norm(node)[:50]}`")
+            self._poison(s)
+            for t_ in node.targets:
+                self._store(t_, v, s)
+            return [s], []
+        if isinstance(node, ast.AnnAssign):
+            if node.value is not None:
+                self._store(node.target, self.ev(node.value, s, f"`{norm(node)[:50]}`"), s)
+                self._poison(s)
+            return [s], []
+        if isinstance(node, ast.AugAssign):
+            cur = self.ev(ast.copy_location(_as_load(node.target), node.target), s)
+            v = self.ev(node.value, s)
+            try:
+                if isinstance(cur, (list, set, dict)) and type(node.op) in (ast.Add, ast.BitOr):
+                    # in-place: the object is shared
+                    if isinstance(cur, list):
+                        cur.extend(v)
+                    else:
+                        cur.update(v)
+                    new = cur
+                else:
+                    new = _BIN[type(node.op)](cur, v)
+            except Exception:
+                new = GAP if isinstance(cur, _GapUnknown) or isinstance(v, _GapUnknown) else UNKNOWN
+            self._store(node.target, new, s)
+            self._poison(s)
+            return [s], []
+        if isinstance(node, ast.Expr):
+            c = node.value
+            if isinstance(c, ast.Constant):
+                return [s], []
+            if isinstance(c, ast.Yield):
+                if s.yields is None:
+                    self.gap("yield outside a followed generator")
+                else:
+                    s.yields.append(self.ev(c.value, s) if c.value is not None else None)
+                return [s], []
+            if isinstance(c, ast.YieldFrom):
+                v = self.ev(c.value, s)
+                try:
+                    s.yields.extend(list(v))
+                except Exception:
+                    self.gap("yield from a sequence that is not known")
+                return [s], []
+            if isinstance(c, ast.Call) and isinstance(c.func, ast.Attribute) and c.func.attr in self.MUTATORS:
+                recv = self.ev(c.func.value, s)
+                args = [self.ev(a, s) for a in c.args]
+                if isinstance(recv, (dict, list, set)) or type(recv).__name__ == "deque":
+                    if any(isinstance(a, _Unknown) for a in args) and c.func.attr in ("update", "extend"):
+                        for nm, val in list(s.env.items()):
+                            if val is recv:
+                                s.env[nm] = GAP if any(isinstance(a, _GapUnknown) for a in args) else UNKNOWN
+                    else:
+                        try:
+                            getattr(recv, c.func.attr)(*args)
+                        except Exception as ex:
+                            self.gap(f"`{norm(c)[:50]}`: {type(ex).__name__}")
+                self._poison(s)
+                return [s], []
+            v = self.ev(c, s, f"`{norm(c)[:50]}`")
+            if isinstance(v, _GapUnknown) and isinstance(c, ast.Call):
+                # a call that was not followed may change the containers it is handed
+                for a in c.args:
+                    if isinstance(a, ast.Name) and isinstance(s.env.get(a.id), (dict, list, set)):
+                        s.env[a.id] = GAP
+            self._poison(s)
+            return [s], []
+        if isinstance(node, ast.For):
+            it = self.ev(node.iter, s, f"loop over `{norm(node.iter)[:40]}`")
+            self._poison(s)
+            try:
+                items = None if isinstance(it, _Unknown) else list(it)
+            except Exception:
+                items = None
+            if items is None or len(items) > 64:
+                # zero or more passes over something unknown: what the body binds or fills is unknown afterwards
+                unk = GAP if isinstance(it, _GapUnknown) else UNKNOWN
+                for nm in _stored_names(node):
+                    s.env[nm] = unk
+                for x in ast.walk(ast.Module(node.body, [])):
+                    tgt = None
+                    if isinstance(x, ast.Call) and isinstance(x.func, ast.Attribute) and x.func.attr in self.MUTATORS and isinstance(x.func.value, ast.Name):
+                        tgt = x.func.value.id
+                    elif isinstance(x, ast.Subscript) and isinstance(x.ctx, ast.Store) and isinstance(x.value, ast.Name):
+                        tgt = x.value.id
+                    elif isinstance(x, ast.Call) and isinstance(x.func, ast.Name):
+                        for a in x.args:
+                            if isinstance(a, ast.Name) and isinstance(s.env.get(a.id), (dict, list, set)):
+                                s.env[a.id] = unk
+                    if tgt and tgt in s.env and not isinstance(s.env[tgt], _Unknown):
+                        s.env[tgt] = unk
+                return [s], []
+            live, after, lefts = [s], [], []
+            for item in items:
+                nxt = []
+                for st_ in live:
+                    self._store(node.target, item, st_)
+                    f, l = self.block(node.body, [st_])
+                    nxt += f
+                    for ls, how, v in l:
+                        if how == "continue":
+                            nxt.append(ls)
+                        elif how == "break":
+                            after.append(ls)
+                        else:
+                            lefts.append((ls, how, v))
+                live = nxt
+                if len(live) + len(after) + len(lefts) > self.limit:
+                    raise Unsupported("too many paths on the sample")
+                if not live:
+                    break
+            if node.orelse and live:
+                f, l = self.block(node.orelse, live)
+                live = f
+                lefts += l
+            return live + after, lefts
+        if isinstance(node, ast.While):
+            live, after, lefts = [s], [], []
+            for _ in range(65):
+                nxt = []
+                for st_ in live:
+                    t = self.test(node.test, st_)
+                    if t is None:
+                        self.gap(f"loop condition `{norm(node.test)[:40]}` is not decided by the sample")
+                        for nm in _stored_names(node):
+                            st_.env[nm] = GAP
+                        after.append(st_)
+                        continue
+                    if not t:
+                        after.append(st_)
+                        continue
+                    f, l = self.block(node.body, [st_])
+                    nxt += f
+                    for ls, how, v in l:
+                        if how == "continue":
+                            nxt.append(ls)
+                        elif how == "break":
+                            after.append(ls)
+                        else:
+                            lefts.append((ls, how, v))
+                live = nxt
+                if not live:
+                    break
+            else:
+                raise Unsupported("loop does not end on the sample")
+            return after, lefts
+        if isinstance(node, ast.Return):
+            v = self.ev(node.value, s, "return") if node.value is not None else None
+            self._poison(s)
+            return [], [(s, "return", v)]
+        if isinstance(node, ast.Raise):
+            return [], [(s, "raise", None)]
+        if isinstance(node, ast.Continue):
+            return [], [(s, "continue", None)]
+        if isinstance(node, ast.Break):
+            return [], [(s, "break", None)]
+        if isinstance(node, (ast.Pass, ast.Assert, ast.Import, ast.ImportFrom, ast.Global, ast.Nonlocal)):
+            return [s], []
+        if isinstance(node, ast.Delete):
+            for t_ in node.targets:
+                if isinstance(t_, ast.Subscript):
+                    obj, k = self.ev(t_.value, s), self.ev(t_.slice, s)
+                    try:
+                        del obj[k]
+                    except Exception:
+                        pass
+                elif isinstance(t_, ast.Name):
+                    s.env.pop(t_.id, None)
+            return [s], []
+        if isinstance(node, ast.Match):
+            from .model import desugar_match
+            d = desugar_match(node)
+            if d is not None:
+                return self.stmt(d, s)
+        if isinstance(node, ast.Try):
+            self.gap("try statement (handlers are not followed)")
+            f, l = self.block(node.body, [s])
+            if node.orelse and f:
+                f, l2 = self.block(node.orelse, f)
+                l += l2
+            if node.finalbody and f:
+                f, l2 = self.block(node.finalbody, f)
+                l += l2
+            return f, l
+        if isinstance(node, ast.With):
+            for it in node.items:
+                v = self.ev(it.context_expr, s)
+                if it.optional_vars is not None:
+                    self._store(it.optional_vars, v, s)
+            return self.block(node.body, [s])
+        self.gap(f"{type(node).__name__} statement")
+        for nm in _stored_names(node):
+            s.env[nm] = GAP
+        return [s], []
+
+
+def _as_load(t):
+    import copy
+    t2 = copy.deepcopy(t)
+    for n in ast.walk(t2):
+        if hasattr(n, "ctx"):
+            n.ctx = ast.Load()
+    return t2
